@@ -51,7 +51,19 @@ fn h_w_reasm_model() {
             let len = (1 + next(3000)) as u16;
             let bytes: Vec<u8> = (0..len).map(|i| (i as u32 * 13 + d as u32 * 101 + case as u32) as u8).collect();
             let mut header = TestHeaderBuilder::new(len).ihl().build();
-            header.identification = 1000 + d as u16;
+            // the datagrams differ in exactly one component of the buffer key, chosen so that a key that drops or folds
+            // a component collides: identification (low byte equal, high byte different; or low byte different), protocol,
+            // source, destination
+            match case % 5 {
+                0 => header.identification = 0x0034 + ((d as u16) << 8),
+                1 => header.identification = 1000 + d as u16,
+                2 => { header.identification = if d == 0 { 0x1100 } else { 0x0600 + ((d as u16 - 1) << 12) }; header.protocol = if d == 0 { 6 } else { 17 }; }
+                3 => { header.identification = 77; header.source = crate::protocols::ipv4::Ipv4Address::new([10, 0, d as u8, 1]); }
+                _ => { header.identification = 77; header.destination = crate::protocols::ipv4::Ipv4Address::new([10, d as u8, 0, 9]); }
+            }
+            if originals.iter().any(|(h, _): &(Ipv4Header, Vec<u8>)| (h.identification, h.protocol, h.source, h.destination) == (header.identification, header.protocol, header.source, header.destination)) {
+                header.identification = header.identification.wrapping_add(0x4000 + d as u16);
+            }
             let mtu = 68 + next(633) as u16;
             let fs = match fragment(header, Message::new(bytes.clone()), mtu) {
                 Fragments::Fragmented(fs) => fs,
